@@ -22,6 +22,11 @@ CLAIMED = {
         "Unbounded theorems: for every formula of the fragment (relationals over symbols and exact rationals, membership in intervals/finite sets, closed under Not/And/Or/Xor), every argument list (hence every iteration order) and every assignment of rationals to the symbols, logical_and/or/nand/nor/xor/xnor/not, piecewise construction, Contains simplification and substitution preserve the truth value. Tied by reproducing the library's result tree exactly (container order included) on generated formulas; a truth-table oracle complete up to order type runs on the library's own results.",
         "Trusted: Coq kernel; extraction; hand transcription validated by exact correspondence (testing); fragment excludes doubles/infinities in order comparisons and other set classes (model returns 'outside fragment', cases skipped); termination of and_or (fuel) is not proved, soundness holds for every fuel.",
         "7 (C28)"),
+    "C39": (
+        "Rocq proof over an executable model of FreeSymbolsVisitor / HasSymbolVisitor / AtomsVisitor / function_symbols / CoeffVisitor on the shared expression AST + exact correspondence of every query answer",
+        "Unbounded theorems: free_symbols is exactly the set of symbols occurring outside Subs binders (memo set included; equals the property's notion on trees without ImageSet/ConditionSet, with refutation witnesses for those), traversals terminate, has_symbol is characterised by reachability through get_args and agrees with free_symbols on Subs-free trees, atoms/function_symbols are sound and complete up to the library's equality, coeff on univariate integer polynomials is the dictionary coefficient and reconstructs the polynomial (partial: multivariate/symbolic coefficients by correspondence only). Tied by identical answers of model and library on generated expressions (incl. Subs, ImageSet, ConditionSet, Piecewise, sets, dummies) and independent oracles in the driver.",
+        "Trusted: Coq kernel; extraction; hand transcription validated by correspondence; the three coeff theorems inherit the Reals axioms through the number-tower model (Flocq); known findings (listed): bound symbols of ImageSet/ConditionSet reported free, has_symbol true for Subs-bound variables.",
+        "7 (C39)"),
     "C46": (
         "Rocq proof over an executable model of homogeneous_lde (Contejean-Devie: stack, Frozen matrix with checked indices, order/is_minimum) + correspondence of returned bases in order + proved-correct brute-force enumerator as oracle",
         "Unbounded theorems for every integer matrix: every run that ends returns exactly the minimal non-zero non-negative solutions of A x = 0, each once (soundness, antichain, completeness by the Contejean-Devie argument), never indexes outside its arrays (stack-depth bound proved as an invariant), and more fuel does not change the result. Termination is proved only on complete small universes (kernel sweep), so the theorems are conditional on the run ending. Tied by comparing the returned basis (in order) between model and library and by an independent brute-force Hilbert-basis oracle in the driver.",
